@@ -114,6 +114,9 @@ def oracle(log, max_age, init_len, P=P):
             break
         T, val = rec["emitted"][0]
         inper = rec["input_period"]
+        if inper is not None and inper <= 0:
+            v.append(("input_period_estimate_is_positive", {"tick": i, "T": T, "input_period": inper, "capacity": rec["capacity"]}))
+            break
         W = max_age * max(P, inper if inper else P)
         # exact (microsecond) arithmetic, as timedelta does it: binary floats cannot represent 0.2 s steps
         exp = [s for s in rec["retained"] if us(T) - us(W) < us(s) <= us(T)]
@@ -149,7 +152,7 @@ def oracle(log, max_age, init_len, P=P):
 
 CLAUSES = ["one_sample_per_tick", "none_and_nan_samples_never_passed", "future_samples_never_passed",
            "function_gets_exactly_the_relevant_samples_in_arrival_order", "value_none_exactly_when_no_relevant_sample",
-           "buffer_capacity_as_configured"]
+           "buffer_capacity_as_configured", "input_period_estimate_is_positive"]
 
 
 def shard(args) -> Acc:
